@@ -404,6 +404,10 @@ func traceBack(v ssa.Value, visit func(ssa.Value) bool, seen map[ssa.Value]bool,
 		return traceBack(x.X, visit, seen, depth+1)
 	case *ssa.Lookup:
 		return traceBack(x.X, visit, seen, depth+1) || traceBack(x.Index, visit, seen, depth+1)
+	case *ssa.Next:
+		return traceBack(x.Iter, visit, seen, depth+1)
+	case *ssa.Range:
+		return traceBack(x.X, visit, seen, depth+1)
 	case *ssa.BinOp:
 		return traceBack(x.X, visit, seen, depth+1) || traceBack(x.Y, visit, seen, depth+1)
 	case *ssa.UnOp:
@@ -653,4 +657,38 @@ func addrUseWrites(user ssa.Instruction, addr ssa.Value) bool {
 		return true
 	}
 	return true
+}
+
+// CorrelatedInfeasibleEdges: SSA values are immutable, so two branches on the same condition value are correlated. If `site`
+// is dominated by the true (false) edge of a branch on value V, then after `site` the false (true) edge of any other branch on V
+// cannot be taken.
+func CorrelatedInfeasibleEdges(fn *ssa.Function, site ssa.Instruction) []Edge {
+	var out []Edge
+	ifs := Ifs(fn)
+	for _, i := range ifs {
+		v, pos := BoolTest(i.Cond)
+		for _, succ := range []int{0, 1} {
+			if !DominatedBy(fn, site, NewAvoid().AddEdge(Edge{i.Block(), succ})) {
+				continue
+			}
+			// on this path v's truth is known
+			truth := (succ == 0) == pos
+			for _, j := range ifs {
+				if j == i {
+					continue
+				}
+				v2, pos2 := BoolTest(j.Cond)
+				if v2 != v {
+					continue
+				}
+				// edge of j on which v would have the opposite truth
+				if truth == pos2 {
+					out = append(out, Edge{j.Block(), 1})
+				} else {
+					out = append(out, Edge{j.Block(), 0})
+				}
+			}
+		}
+	}
+	return out
 }
